@@ -430,10 +430,12 @@ theorem ke_doInline (fns : List Fn) (st : St) (fi : Nat) (a : List Arg) (o : Opt
             split
             · exact KE.refl st
             · exact KE.same rfl rfl rfl rfl
-          have k1 := ke_inlineRun true (if p = "" then st else pushScope st p)
+          have kr : KE (if p = "" then st else pushScope st p) (resolveArgs (if p = "" then st else pushScope st p) a).1 :=
+            (rawExt_resolveArgs a _).ke
+          have k1 := KE.trans kr (ke_inlineRun true (resolveArgs (if p = "" then st else pushScope st p) a).1
             (resolveFn (effectiveAttrs true f as) f)
             (resolveArgs (if p = "" then st else pushScope st p) a).2
-            (o.map (fun o => o.map (qualifyValue st.cur)))
+            (o.map (fun o => o.map (qualifyValue st.cur))))
           have k2 : ∀ s : St, KE s (if p = "" then s else popScope s) := by
             intro s
             split
